@@ -1,7 +1,21 @@
 import LyModel.Base
 import LyModel.Text.Drv
+import LyModel.Lex.Drv
+import LyModel.XmlTree.Drv
+import LyModel.JsonTree.Drv
+import LyModel.XsdRe.Drv
+import LyModel.Val.Drv
+import LyModel.Path.Drv
+import LyModel.Lyb.Drv
+import LyModel.Conc.Drv
+import LyModel.Iff.Drv
+import LyModel.XPath.Drv
+import LyModel.YangStr.Drv
+import LyModel.LyHt.Drv
+import LyModel.Sib.Drv
 import LyModel.Diff.Drv
 import LyModel.Diff.Drv13
+import LyModel.Ctx.Drv
 /-! Dispatch table of the line-protocol driver: one handler per component. -/
 namespace LyModel.Drv
 
@@ -9,8 +23,22 @@ def dispatch (comp op : String) (args : List String) : String :=
   match comp with
   | "echo" => "ok " ++ op ++ " " ++ " ".intercalate args
   | "text" => Text.Drv.handle op args
+  | "lex" => Lex.Drv.handle op args
+  | "xmltree" => XmlTree.Drv.handle op args
+  | "jsontree" => JsonTree.Drv.handle op args
+  | "xsdre" => XsdRe.Drv.handle op args
+  | "val" => Val.Drv.handle op args
+  | "path" => Path.Drv.handle op args
+  | "lyb" => Lyb.Drv.handle op args
+  | "conc" => Conc.Drv.handle op args
+  | "iff" => Iff.Drv.handle op args
+  | "xpath" => XPath.Drv.handle op args
+  | "yangstr" => YangStr.Drv.handle op args
+  | "ht" => LyHt.Drv.handle op args
+  | "sib" => Sib.Drv.handle op args
   | "diff" => Diff.Drv.handle op args
   | "diff13" => Diff.Drv13.handle op args
+  | "ctx" => Ctx.Drv.handle op args
   | _ => "err NoSuchComponent"
 
 end LyModel.Drv
